@@ -380,7 +380,17 @@ func run(rt *rapid.T, steps []step, g sim.Geometry) (fail string, w *world) {
 				}
 			}
 			// part 1, while the queue is full: many notifications that pile up at the peer
-			for rep := 0; rep < 4; rep++ {
+			// (now and then a flood of them, led by an Unchoke - which makes the
+			// torrent run its scheduler, and the scheduler queries every peer,
+			// synchronously)
+			reps := 4
+			if (s.A>>9)&3 == 3 {
+				reps = 320
+				raw = append(raw, ref.Encode(ref.Msg{Kind: ref.KUnchoke})...)
+				m.unchoked = true
+				w.lab("flood-while-torrent-busy")
+			}
+			for rep := 0; rep < reps; rep++ {
 				for j := 0; j < 6; j++ {
 					k := (i + j*3) % x.N
 					if nh[k] {
@@ -662,9 +672,13 @@ func TestC09Conservation(t *testing.T) {
 		leak := sim.Bubble(t, func() { fail, w = run(rt, steps, g) })
 		startAsMagnet = false
 		if fail != "" {
+			// (a torrent that is stuck stays behind and spoils the re-runs rapid
+			// makes to shrink the case: the first failure goes to the output too)
+			fmt.Printf("TestC09Conservation: %s\n", fail)
 			rt.Fatalf("%s", fail)
 		}
 		if leak != "" {
+			fmt.Printf("TestC09Conservation: goroutines left behind: %.400s\n", leak)
 			rt.Fatalf("goroutines left behind: %s", leak)
 		}
 		if d := sim.PoolDuplicate(); d != "" {
